@@ -181,7 +181,7 @@ PRE_EXISTING = {"out/notes.txt": "kept\n", "out/sub/keep.me": "kept too\n", "unr
 def export_cases(tier, esm, stats, sandbox):
     """PREDICT the cases with Graphs.tla, build them, export every root into a fresh directory that
     holds a few unrelated files.  -> (units, observations, {unit: result}, {unit: tree before})"""
-    cfgp = os.path.join(vlib.BUILD, "graphs-cfg.json")
+    cfgp = os.path.join(vlib.TMP, "graphs-cfg.json")
     q = tier == "quick"
     dplaces = list(DPLACES) if not q else ["default", "dir", "file", "escape", "same_as_root", "same_dotdot"]
     rplaces = list(RPLACES) if not q else ["default", "nested_file", "escape"]
@@ -248,7 +248,7 @@ def run_mode(tier, esm, v, stats, prop=PROP, payload="BAD"):
                 d_ = tsparse.parse_decl(info["decl"]["ok"])
                 stats["static_checked"] += 1
                 stats.setdefault("static", []).append((desc, u, d_, sorted({x[0] for x in info["deps"]["ok"]})))
-        tp = os.path.join(vlib.BUILD, "imports-trace.ndjson")
+        tp = os.path.join(vlib.TMP, "imports-trace.ndjson")
         vlib.write_ndjson(tp, recs)
         a = vlib.run_tlc("Trace_Imports", "Trace_Imports.cfg", workers=8, env={"VERIF_TRACE": tp}, timeout=1800, tags=("BAD", "BADSPEC"), metatag="c03a")
         vlib.tlc_must_succeed(a, "Trace_Imports")
@@ -290,7 +290,7 @@ def run(tier):
             [{"path": [list("dep_%s.ts" % n)], "imports": [], "decls": [{"name": n, "params": [], "body": {"k": "kw", "v": "null"}}]} for n in deps if n != own]})
         smeta.append((desc, u, deps))
     if srecs:
-        tp = os.path.join(vlib.BUILD, "imports-static.ndjson")
+        tp = os.path.join(vlib.TMP, "imports-static.ndjson")
         vlib.write_ndjson(tp, srecs)
         a = vlib.run_tlc("Trace_Imports", "Trace_Imports.cfg", workers=8, env={"VERIF_TRACE": tp}, timeout=1800, tags=("BAD",), metatag="c03s")
         vlib.tlc_must_succeed(a, "Trace_Imports static")
